@@ -680,3 +680,28 @@ func (r *Run) Finish() {
 		_ = os.Remove(name)
 	}
 }
+
+// Fuzz turns a rapid generator plus evaluator into a native fuzz function
+// (f.Fuzz(ev.Fuzz(gen, eval))): the fuzz bytes drive the generator's choices, so Go's
+// coverage guidance searches the same structured domain as the rapid sub-check. A
+// failing case fails the fuzz run with its descriptor in the message; the saved corpus
+// file is the replay.
+func Fuzz[D any](prop, sub string, gen func(*rapid.T) D, eval func(D) Result) func(*testing.T, []byte) {
+	return rapid.MakeFuzz(func(rt *rapid.T) {
+		d := gen(rt)
+		res := Safe(eval, d)
+		if res.Fail == "" || res.Key == "setup" {
+			return
+		}
+		// watchdog / allocation verdicts must reproduce
+		if strings.HasPrefix(res.Key, "hang") || strings.HasPrefix(res.Key, "slow") || strings.HasPrefix(res.Key, "alloc") {
+			for i := 0; i < 2; i++ {
+				if r2 := Safe(eval, d); r2.Fail == "" || r2.Key != res.Key {
+					return
+				}
+			}
+		}
+		dj, _ := json.Marshal(d)
+		rt.Fatalf("VIOLATION %s/%s key=%s: %s\ndescriptor: %s", prop, sub, res.Key, res.Fail, dj)
+	})
+}
